@@ -86,3 +86,4 @@ pub mod labels;
 pub mod types;
 pub mod values;
 pub mod upgrade;
+pub mod prog;
